@@ -11,6 +11,9 @@ EXTENDS Integers, Sequences, TLC, Json
 Ops == {
   "mapwrite", "mapread", "mapdelete", "maplen",          \* operand: nil / empty / nonempty map
   "deref", "fieldsmall", "fieldlarge", "ptrarrayindex", "ptrarraylen", "methodptr", \* operand: nil / valid pointer
+  "derefdiscard", "derefdiscardstruct", "derefdiscardarray", \* _ = *p : the operand is evaluated although the value is dropped
+  "rangeptrarraykey", "rangeptrarrayval",                 \* for i := range *p (not evaluated: length is constant) / for _, v := range *p
+  "assertemptyiface",                                     \* x.(any) for x of a non-empty interface type: nil / match
   "callfunc",                                              \* operand: nil / valid func value
   "assertconcrete", "assertiface", "assertcomma",         \* operand: nil iface / matching dyn type / other dyn type
   "divint", "modint", "divint8", "divuint", "divconstzerovar", \* operand: zero / nonzero divisor
@@ -22,7 +25,9 @@ Ops == {
 
 States(op) ==
   CASE op \in {"mapwrite", "mapread", "mapdelete", "maplen"} -> {"nil", "empty", "nonempty"}
-    [] op \in {"deref", "fieldsmall", "fieldlarge", "ptrarrayindex", "ptrarraylen", "methodptr", "callfunc", "ifacemethod"} -> {"nil", "valid"}
+    [] op \in {"deref", "fieldsmall", "fieldlarge", "ptrarrayindex", "ptrarraylen", "methodptr", "callfunc", "ifacemethod",
+                "derefdiscard", "derefdiscardstruct", "derefdiscardarray", "rangeptrarraykey", "rangeptrarrayval"} -> {"nil", "valid"}
+    [] op = "assertemptyiface" -> {"nil", "match"}
     [] op \in {"assertconcrete", "assertiface", "assertcomma"} -> {"nil", "match", "other"}
     [] op \in {"divint", "modint", "divint8", "divuint", "divconstzerovar"} -> {"zero", "nonzero"}
     [] op \in {"makeslice", "makechan", "makemap"} -> {"neg", "zero", "pos"}
@@ -36,9 +41,11 @@ States(op) ==
 Mandated(op, st) ==
   CASE op = "mapwrite" -> IF st = "nil" THEN "nilmap" ELSE "none"
     [] op \in {"mapread", "mapdelete", "maplen"} -> "none"
-    [] op \in {"deref", "fieldsmall", "fieldlarge", "ptrarrayindex", "methodptr", "callfunc", "ifacemethod"} ->
+    [] op \in {"deref", "fieldsmall", "fieldlarge", "ptrarrayindex", "methodptr", "callfunc", "ifacemethod",
+                "derefdiscard", "derefdiscardstruct", "derefdiscardarray", "rangeptrarrayval"} ->
          IF st = "nil" THEN "nilderef" ELSE "none"
-    [] op = "ptrarraylen" -> "none"                       \* len of a nil *[3]int is 3, no dereference
+    [] op \in {"ptrarraylen", "rangeptrarraykey"} -> "none" \* len of a nil *[3]int is 3 and a key-only range over *p does not evaluate *p
+    [] op = "assertemptyiface" -> IF st = "match" THEN "none" ELSE "assert"
     [] op \in {"assertconcrete", "assertiface"} -> IF st = "match" THEN "none" ELSE "assert"
     [] op = "assertcomma" -> "none"
     [] op \in {"divint", "modint", "divint8", "divuint", "divconstzerovar"} -> IF st = "zero" THEN "divide" ELSE "none"
